@@ -83,5 +83,3 @@ Definition apply (base: list (K * V)) (d: mdiff) : list (K * V) :=
   end.
 End MF.
 
-Require Extraction. Require Import ExtrOcamlBasic.
-Extraction "mfmodel.ml" hashcmp apply.
